@@ -5,6 +5,7 @@
 //verif:bound bytesPeeked 0..3 as pre-state, read buffers 0..5 bytes, two consecutive reads
 //verif:stub underlying connection = harness stub counting Read calls
 //verif:obligation C02.c' reading the sampled connection through io.Copy (which prefers the connection's io.WriterTo): for every number 0..3 of peeked bytes already consumed, the copy delivers the remaining peeked bytes first and then the wire - nothing is skipped
+//verif:obligation C02.c'' a copy whose destination accepts 0..2 bytes and then fails (short write with an error), after which the caller keeps reading the connection: every peeked byte is delivered exactly once across the two ways of reading, in order, and the wire follows
 //verif:outside the SyscallConn fallback of the embedded TCP connection (documented as a footgun in the source), real sockets
 package sampledconn
 
@@ -85,5 +86,58 @@ func VerifC02cSampledCopy() {
 	}
 	for i := 3 - start; i < len(sink.got); i++ {
 		vAssert(sink.got[i] == 0xEE, "then the bytes from the wire follow")
+	}
+}
+
+// a destination that accepts some bytes of a write and then fails
+type vC02faultySink struct {
+	got    []byte
+	accept int // bytes still accepted before the failure
+}
+
+func (s *vC02faultySink) Write(b []byte) (int, error) {
+	if len(b) <= s.accept {
+		s.got = append(s.got, b...)
+		s.accept -= len(b)
+		return len(b), nil
+	}
+	n := s.accept
+	s.got = append(s.got, b[:n]...)
+	s.accept = 0
+	return n, io.ErrShortWrite
+}
+
+// C02.c”: a copy that fails inside the peeked bytes, then the caller goes on reading the connection
+func VerifC02cSampledCopyFault() {
+	u := &vC02under{}
+	sc := &wrappedSampledConn{ManetTCPConnInterface: u}
+	for i := range sc.peekedBytes {
+		sc.peekedBytes[i] = vUint8()
+	}
+	peeked := sc.peekedBytes
+	start := vCase(4)
+	sc.bytesPeeked = uint8(start)
+	sink := &vC02faultySink{accept: vCase(3)} // 0..2 bytes get through before the destination fails
+	n, err := io.Copy(sink, sc)
+	if err == nil {
+		vCover("destination-failure-not-reached")
+		return
+	}
+	vCover("copy-failed-part-way")
+	vAssert(int(n) == len(sink.got), "the copy reports the bytes the destination accepted")
+	// what the connection still owes: the peeked bytes not yet handed over, then the wire
+	var rest []byte
+	for r := 0; r < 2; r++ {
+		b := make([]byte, 3)
+		k, rerr := sc.Read(b)
+		vAssert(rerr == nil, "reading on works")
+		rest = append(rest, b[:k]...)
+	}
+	all := append(append([]byte{}, sink.got...), rest...)
+	for i := 0; i < 3-start; i++ {
+		vAssert(i < len(all) && all[i] == peeked[start+i], "after a copy that failed part-way every peeked byte is still delivered exactly once, in order (none lost, none repeated)")
+	}
+	if len(all) > 3-start {
+		vAssert(all[3-start] == 0xEE, "and the wire follows right after the last peeked byte")
 	}
 }
